@@ -43,7 +43,37 @@ def gen_cases(ctx):
     ctx.add_tlc(r, "export: simulated scenarios over negative and positive node/way ids in file order")
     for i, c in enumerate(r.cases):
         cases.append(dict(c, id="Neg-%d" % i))
+    cases.extend(wide_cases(cases, quick))
     return cases
+
+
+def wide_cases(cases, quick):
+    """Scenarios with one member-list entry repeated 2^8 / 2^16 times (see relmgr_replay.cpp, "wide"): the countdown of
+    wanted members, the members database range of one id and the removal after completion beyond TLC's list lengths."""
+    out = []
+    plan = [(256, 12 if quick else 60), (65536, 2 if quick else 6)]
+    for k, want_n in plan:
+        n = 0
+        for c in cases:
+            if n >= want_n:
+                break
+            if c.get("big") or "wide" in c:
+                continue
+            pick = None
+            for s in c["steps"]:
+                for e in s["ev"] or []:
+                    if e.get("e") == "complete" and e["probe"].count("present") >= 2:
+                        idxs = [i for i, p in enumerate(e["probe"]) if p == "present"]
+                        pick = (e["id"], idxs[(n + k) % len(idxs)])
+                        break
+                if pick:
+                    break
+            if pick:
+                out.append(dict(c, id="%s-wide%d" % (c["id"], k), wide={"rel": pick[0], "idx": pick[1], "k": k}))
+                n += 1
+        if n == 0:
+            raise vlib.ModelFailure("no exported scenario with a completing relation of >= 2 tracked members (wide family vacuous)")
+    return out
 
 
 def sig_of(c, r):
